@@ -7,7 +7,7 @@ import numpy as np
 
 from harness import common as C
 
-ANCHORS = ["T5boot", "T5eof", "T3", "T3b"]
+ANCHORS = ["T5boot", "T5eof", "T3", "T3b", "T9text"]
 MODELS = ["BootCase"]
 RULE = ("fitted xeofs.single.EOF models x EOFBootstrapper(n_bootstraps, seed): structure (DataArray 1-D features, DataArray lat-lon, Dataset, "
         "list) x user dimension names x n in 4..10 x p in 2..5 x center/standardize/use_coslat x k in 1..min(n-1,p) x n_bootstraps in 1..50 x "
